@@ -328,8 +328,11 @@ class Session:
             opts["T"] = T2
         net2.step(init_conditions=ic2, engine=eng2, **opts)
         F2 = eng2.to_function(net2, **self.compile_kwargs(op, T2))
+        k1 = dyn.symbol_keys(self.U, self.net, {"T": self.T_sym} if self.T_sym is not None else None)
+        k2 = dyn.symbol_keys(U2, net2, {"T": T2} if T2 is not None else None)
         for j in range(2):
-            if dyn.eval_function(F, core.H(op.get("pt", 0), j)) != dyn.eval_function(F2, core.H(op.get("pt", 0), j)):
+            # per-variable evaluation, multiset of outputs: argument layout is not C19's subject
+            if dyn.eval_function_keyed(F, k1, core.H(op.get("pt", 0), j)) != dyn.eval_function_keyed(F2, k2, core.H(op.get("pt", 0), j)):
                 raise Violation(
                     "C19/not-most-recent-step",
                     f"{where}: the function compiled right after a complete step differs from the one of a twin that "
